@@ -38,7 +38,7 @@ POOLS = {
     "deep": ["a", "b"],
 }
 POOL_ORDER = ["ab", "abc", "abcd", "real", "idn", "edge", "digits", "suffixy", "wide", "deep"]
-URL_FORMS = ["http", "bare", "port", "schemeless", "auth", "split", "https_q", "auth_noport", "user_only", "upper_scheme", "query_only", "frag_only", "bare_port", "bare_query", "bare_user", "bare_dslash"]
+URL_FORMS = ["http", "bare", "port", "schemeless", "auth", "split", "https_q", "auth_noport", "user_only", "upper_scheme", "query_only", "frag_only", "bare_port", "bare_query", "bare_user", "bare_dslash", "bare_q_url"]
 NONSTRING = ["none", "int", "list", "bytes"]
 FAULT_KINDS = ["iter_cancel", "add_raises"]
 
@@ -106,6 +106,8 @@ def render_url(host, form):
         return "ftp://user@%s:21/" % host
     if form == "upper_scheme":
         return "HTTPS://%s/Path" % host
+    if form == "bare_q_url":
+        return "%s/share?u=https://example.org/page" % host
     if form == "bare_dslash":
         # (a single all-letter label followed by '//' reads as a protocol to the
         # library's own PROTOCOL_RE, 'be//x' like 'http//x': not a host spelling)
@@ -470,6 +472,12 @@ class Run(object):
         self.sweeps += 1
         base = self.sweeps
         off = base % stride
+        # every other complete observation starts with the traversal: nothing —
+        # not even len() or a match — has then been asked since the last add
+        iter_first = do_iter and base % 2 == 1
+        if iter_first:
+            self.stats.checks += 1
+            self.judge_iteration(t, bounded(self.tries[t], len(self.models[t].added)), op)
         n = 0
         for labels in self.universe:
             n += 1
